@@ -29,13 +29,64 @@ const CFLOATS: [&str; 10] = ["0.5", "1.25", "3.14159", "12.375", "100.001", "0.0
 const CINTS: [i64; 9] = [0, 1, 7, 42, -1, -15, 1000000, i64::MAX, -9000000000];
 const CVARS: [&str; 6] = ["$X", "$Y", "$Abc1", "$Tail", "$Ü", "$In_2x"];
 
+// Generated lexemes (half of the draws; the other half come from the fixed pools above).
+const LETTERS: [char; 30] = ['a', 'b', 'e', 'k', 'm', 'n', 'o', 's', 't', 'x', 'z', 'A', 'C', 'H', 'N', 'T', 'Z', 'é', 'ü', 'ñ', 'Δ', 'λ', 'Я', 'ж', 'e', 'i', 'r', 'l', 'd', 'q'];
+const RESERVED: [&str; 30] = ["not", "time", "fail", "nl", "print", "print_list", "append", "count", "include", "exclude", "functor", "add", "subtract", "multiply", "divide", "join",
+    "equal", "less_than", "less_than_or_equal", "greater_than", "greater_than_or_equal", "unify", "e", "E", "inf", "nan", "NaN", "infinity", "Infinity", "INF"];
+
+/// An atom of the documented shape: letters, digits, `_`, with single inner blanks or hyphens between words.
+fn gen_atom(s: &mut dyn Src) -> String {
+    let words = 1 + weighted(s, &[6, 2, 1]);
+    let mut out = String::new();
+    for w in 0..words {
+        if w > 0 { out.push(if chance(s, 1, 3) { '-' } else { ' ' }); }
+        let n = 1 + s.draw(6);
+        for i in 0..n {
+            let c = match weighted(s, &[8, if i > 0 || w > 0 { 2 } else { 0 }, if i > 0 { 1 } else { 0 }]) { 0 => pick(s, &LETTERS), 1 => char::from(b'0' + s.draw(10) as u8), _ => '_' };
+            out.push(c);
+        }
+    }
+    if RESERVED.contains(&out.as_str()) { out.push('x'); }
+    out
+}
+
+fn gen_varname(s: &mut dyn Src) -> String {
+    let n = 1 + s.draw(6);
+    let mut out = String::from("$");
+    for i in 0..n {
+        let c = match weighted(s, &[8, if i > 0 { 2 } else { 0 }, if i > 0 { 1 } else { 0 }]) { 0 => pick(s, &LETTERS), 1 => char::from(b'0' + s.draw(10) as u8), _ => '_' };
+        out.push(c);
+    }
+    out
+}
+
+fn gen_int(s: &mut dyn Src) -> i64 {
+    let digits = 1 + s.draw(18);
+    let mut v: i64 = 0;
+    for i in 0..digits { let d = if i == 0 { 1 + s.draw(9) } else { s.draw(10) } as i64; v = v * 10 + d; }
+    if chance(s, 1, 3) { -v } else { v }
+}
+
+/// A float whose shortest round-trip text is the text it was written with: no leading or trailing zeros,
+/// a non-zero fractional part, at most 15 significant digits.
+fn gen_float(s: &mut dyn Src) -> f64 {
+    let ni = 1 + s.draw(7);
+    let nf = 1 + s.draw(7);
+    let mut t = String::new();
+    if chance(s, 1, 3) { t.push('-'); }
+    if chance(s, 1, 5) { t.push('0'); } else { for i in 0..ni { t.push(char::from(b'0' + if i == 0 { 1 + s.draw(9) } else { s.draw(10) } as u8)); } }
+    t.push('.');
+    for i in 0..nf { t.push(char::from(b'0' + if i == nf - 1 { 1 + s.draw(9) } else { s.draw(10) } as u8)); }
+    t.parse::<f64>().unwrap()
+}
+
 fn c_term(s: &mut dyn Src, depth: u32) -> Term {
     let deep = depth < 2;
     match weighted(s, &[5, 3, 2, 4, 1, if deep { 3 } else { 0 }, if deep { 3 } else { 0 }]) {
-        0 => Term::atom(pick(s, &CATOMS)),
-        1 => Term::Int(pick(s, &CINTS)),
-        2 => Term::Float(pick(s, &CFLOATS).parse::<f64>().unwrap()),
-        3 => Term::var(pick(s, &CVARS)),
+        0 => if chance(s, 1, 2) { Term::Atom(gen_atom(s)) } else { Term::atom(pick(s, &CATOMS)) },
+        1 => if chance(s, 1, 2) { Term::Int(gen_int(s)) } else { Term::Int(pick(s, &CINTS)) },
+        2 => if chance(s, 1, 2) { Term::Float(gen_float(s)) } else { Term::Float(pick(s, &CFLOATS).parse::<f64>().unwrap()) },
+        3 => if chance(s, 1, 3) { Term::Var(gen_varname(s)) } else { Term::var(pick(s, &CVARS)) },
         4 => Term::Anon,
         5 => {
             let n = s.draw(4) as usize;
@@ -511,9 +562,9 @@ impl Property for ParserProp {
     // cases per worker (quick, thorough); the string-level checks cost a few microseconds per case
     fn budget(&self) -> (u64, u64) {
         match self.aspect {
-            PAspect::File => (1500, 40_000),
-            PAspect::NoPanic => (60_000, 1_500_000),
-            _ => (20_000, 300_000),
+            PAspect::File => (6000, 40_000),
+            PAspect::NoPanic => (250_000, 1_500_000),
+            _ => (80_000, 300_000),
         }
     }
 
